@@ -28,16 +28,16 @@ import (
 
 // Behaviour describes what the plugin deployed from one `src` does.
 type Behaviour struct {
-	Outcome       string         `json:"outcome"` // success | error | alt | crash | hang
-	DelayMs       int            `json:"delay_ms"`
-	DeployFail    bool           `json:"deploy_fail"`
-	DeployDelayMs int            `json:"deploy_delay_ms"`
-	IgnoreCancel  bool           `json:"ignore_cancel"` // a hanging step that does not react to the cancel signal
+	Outcome       string `json:"outcome"` // success | error | alt | crash | hang
+	DelayMs       int    `json:"delay_ms"`
+	DeployFail    bool   `json:"deploy_fail"`
+	DeployDelayMs int    `json:"deploy_delay_ms"`
+	IgnoreCancel  bool   `json:"ignore_cancel"` // a hanging step that does not react to the cancel signal
 	// the deployment does not watch its context: it takes DeployDelayMs and then succeeds (or fails as scripted) even when the
 	// step was closed or stopped meanwhile, as a deployer that pulls an image or waits for a scheduler would
-	DeployIgnoresCtx bool `json:"deploy_ignores_ctx"`
-	ProbeCloseFail bool          `json:"probe_close_fail"` // while the schema is probed, the write of the ATP "client done" message fails
-	Data          map[string]any `json:"data"`          // overrides of the produced output fields
+	DeployIgnoresCtx bool           `json:"deploy_ignores_ctx"`
+	ProbeCloseFail   bool           `json:"probe_close_fail"` // while the schema is probed, the write of the ATP "client done" message fails
+	Data             map[string]any `json:"data"`             // overrides of the produced output fields
 }
 
 // LogEntry is one observation of the plugin side.
@@ -60,8 +60,10 @@ type Script struct {
 	t0         time.Time
 	running    int64 // currently executing step handlers
 	maxRunning int64
-	deployed   int64 // deploy - close balance
-	probe      atomic.Bool // true while the workflow is being prepared (schema probes)
+	deployed   int64                       // deploy - close balance
+	probe      atomic.Bool                 // true while the workflow is being prepared (schema probes)
+	starts     atomic.Int64                // number of exec-start events so far
+	startHook  atomic.Pointer[func(int64)] // called (outside the lock) with the running count at every exec-start
 }
 
 func newScript() *Script {
@@ -90,6 +92,12 @@ func (s *Script) add(ev, src, run, out string, data any) {
 	s.seq++
 	s.log = append(s.log, LogEntry{Seq: s.seq, Ev: ev, Src: src, RunID: run, Out: out, Data: data,
 		AtMs: time.Since(s.t0).Milliseconds()})
+	if ev == "exec-start" {
+		n := s.starts.Add(1)
+		if h := s.startHook.Load(); h != nil {
+			defer (*h)(n)
+		}
+	}
 }
 
 func (s *Script) snapshot() []LogEntry {
@@ -266,8 +274,8 @@ var sdSchema = schema.NewTypedScopeSchema[*SDConfig](schema.NewStructMappedObjec
 
 type sdFactory struct{}
 
-func (sdFactory) Name() string                                 { return "scripted" }
-func (sdFactory) DeploymentType() deployer.DeploymentType      { return "builtin" }
+func (sdFactory) Name() string                                             { return "scripted" }
+func (sdFactory) DeploymentType() deployer.DeploymentType                  { return "builtin" }
 func (sdFactory) ConfigurationSchema() *schema.TypedScopeSchema[*SDConfig] { return sdSchema }
 func (sdFactory) Create(cfg *SDConfig, _ log.Logger) (deployer.Connector, error) {
 	c := &sdConnector{}
@@ -285,23 +293,23 @@ type sdConnector struct {
 type sdPlugin struct {
 	failWriteFrom int32 // > 0: the n-th and later writes fail
 	writes        int32
-	reader *io.PipeReader
-	writer *io.PipeWriter
-	cancel context.CancelFunc
-	wg     *sync.WaitGroup
-	src    string
-	script *Script
-	once   sync.Once
+	reader        *io.PipeReader
+	writer        *io.PipeWriter
+	cancel        context.CancelFunc
+	wg            *sync.WaitGroup
+	src           string
+	script        *Script
+	once          sync.Once
 }
 
-func (p *sdPlugin) Read(b []byte) (int, error)  { return p.reader.Read(b) }
+func (p *sdPlugin) Read(b []byte) (int, error) { return p.reader.Read(b) }
 func (p *sdPlugin) Write(b []byte) (int, error) {
 	if n := atomic.AddInt32(&p.writes, 1); p.failWriteFrom > 0 && n >= p.failWriteFrom {
 		return 0, fmt.Errorf("scripted write failure")
 	}
 	return p.writer.Write(b)
 }
-func (p *sdPlugin) ID() string                  { return p.src }
+func (p *sdPlugin) ID() string { return p.src }
 func (p *sdPlugin) Close() error {
 	var err error
 	p.once.Do(func() {
